@@ -563,7 +563,7 @@ fn gen_point(rng: &mut Rng, ty: Ty, n: usize) -> Vec<Z> {
 
 pub fn run(ctx: &Ctx) -> Report {
     // unit u: shape (m,n) = (u%36/6+1, u%36%6+1), repetition u/36. Every unit sweeps both types and all steps.
-    let units = ctx.vol(36 * 100, 36 * 1500).max(36);
+    let units = ctx.vol(36 * 400, 36 * 30_000).max(36);
     let stats = par_run(ctx, TAG, units, |u, rng, st| {
         let s = (u % 36) as usize;
         let (m, n) = (s / 6 + 1, s % 6 + 1);
